@@ -163,8 +163,7 @@ async def worker_serve(
         await context.terminated.set()
 
         for server in servers:
-            server.close()
-            await server.wait_closed()
+            server.close()  # Stop accepting new connections
 
         try:
             gathered_server_tasks = asyncio.gather(*server_tasks)
@@ -175,6 +174,11 @@ async def worker_serve(
             # Retrieve the Gathered Tasks Cancelled Exception, to
             # prevent a warning that this hasn't been done.
             gathered_server_tasks.exception()
+
+            # Since Python 3.12 this waits for every connection to
+            # close, hence it must follow the graceful timeout.
+            for server in servers:
+                await server.wait_closed()
 
             await lifespan.wait_for_shutdown()
             lifespan_task.cancel()
